@@ -195,6 +195,11 @@ Section Restore.
   Theorem frame_close_restores h0 it hc : Inv h0 it hc -> iclose hc it = h0.
   Proof. apply iclose_restores. Qed.
 
+  (* the consumer throws an exception into a suspended (or not yet started) generator object:
+     every open loop is unwound on the way out, the heap is h0 when the exception comes back *)
+  Theorem consumer_throw_restores h0 it hc : Inv h0 it hc -> ithrow lclose hc it = (h0, IDone, RRaise).
+  Proof. intros I. unfold ithrow. rewrite (iclose_restores I). reflexivity. Qed.
+
   (* a frame (not a leaf) that is entered (recursion limit not yet reached) and does not yield
      has ALREADY restored the heap when it returns or when the exception leaves it: every
      enclosing loop was unwound on the way out *)
